@@ -147,4 +147,18 @@ PROPS = {
         status="full on the generated table (finite, decided by complete evaluation); click's parsing is exercised, not modelled",
         assumptions=["click passes option values of the declared type to the command function (exercised with the library mocked)"],
     ),
+    "C07": dict(
+        units=[],
+        props_files=["Props/C07.v"],
+        driver="c07",
+        rule="generated VCFs with >= 11 index partitions: every explode partition and every encode partition as its own OS process "
+        "under the audit hook, up to 16 at a time, shuffled order, some re-run after the partition exists; PLINK slices in the real "
+        "pool (2..8 workers) with task markers; recorded mutations/reads vs the model's W/R sets through a strict path parser, "
+        "recorded sets pairwise disjoint, final stores equal to the sequential reference. distinct = distinct traced run; "
+        "non-trivial = more than one task",
+        status="partial: every interleaving is covered by the theorem over an idealised file system (an operation changes only the "
+        "paths it writes); that the kernel executes operations on disjoint paths independently is that model's assumption; real "
+        "schedules are only sampled",
+        assumptions=["operations on disjoint paths are independent (kernel file system)", "CPython audit events cover every mutation bio2zarr/zarr perform (open, mkdir, rename, remove, rmdir)"],
+    ),
 }
